@@ -354,8 +354,12 @@ def r_ambient(ctx, model):
         n += len(mod.funcs)
         for q, node, full in ambient_uses(mod):
             hits += 1
-            ctx.violation(f"{q}:{full}", Where(mod.rel, q, node.lineno), expected="no ambient input", found=full,
-                          explanation=f"{q} reads {full}: the result depends on time, randomness, environment or the working directory",
+            setter = any(t in full for t in ("set_option", "reset_option", "pandas.options", "set_printoptions", "seterr", "simplefilter", "filterwarnings", "setlocale", "chdir", "umask",
+                                             "setrecursionlimit", "rcParams", "matplotlib.use", "setcontext"))
+            ctx.violation(f"{q}:{full}", Where(mod.rel, q, node.lineno), expected="no ambient input and no process-wide state set", found=full,
+                          explanation=(f"{q} sets process-wide state of a library ({full}) and does not restore it: everything formatted or computed later in the same process "
+                                       f"(a second table, a second calculation) comes out differently from a fresh run") if setter else
+                          f"{q} reads {full}: the result depends on time, randomness, environment or the working directory",
                           instance=f"{mname}:{q}:{full}")
     if hits == 0:
         ctx.ok(f"no ambient source (time, random, environ, getcwd, uuid, id) in {n} functions", Where("cij", "", 0), f"{n} functions")
